@@ -160,6 +160,21 @@ def handle (S : Session) (toks : List String) : Session × String :=
   | "COMPLETE" :: rest => match parseDump n rest with
     | some d => (S, verdict (judgeComplete d))
     | none => bad
+  | "TRUECOMPLETE" :: st :: rest => match st.toNat?, parseDump n rest with
+    | some st, some d => (S, verdict (judgeTrueComplete d st))
+    | _, _ => bad
+  | "FALSESTUB" :: st :: rest => match st.toNat?, parseDump n rest with
+    | some st, some d => (S, verdict (judgeFalseHasStub d st))
+    | _, _ => bad
+  | "FIND" :: sp :: rest => match parseSpace n sp, parseDump n rest with
+    | some p, some d => (S, match d.find p with | some i => toString i | none => "none")
+    | _, _ => bad
+  | "SUBGRAPH" :: rest =>
+    let a := rest.takeWhile (· ≠ "||")
+    let b := (rest.dropWhile (· ≠ "||")).drop 1
+    match parseDump n a, parseDump n b with
+    | some a, some b => (S, s!"{isSubgraph a b} {subgraphSpec a b}")
+    | _, _ => bad
   | "ADOPT" :: rest => match parseDump n rest with
     | some d => ({ S with diag := d.toDiag }, "OK")
     | none => bad
